@@ -9,7 +9,7 @@ CONF = dict(
           'loss-free, k = 0..9 consecutive losses then recovery (every pool level 8..0), complete drain and re-keying (once or twice), random mixes, provider aged by '
           '1/23/25/30/47/49 h between calls (key rotation while old cookies stay valid), aged by 73..200 h (keys of the pooled cookies expire: server silent, pool drains, '
           're-key), a client quiet for two rotations but less than 72 h (must still be answered), loss-free operation across 4..6 rotations and more than 72 h in all, forged datagrams at every pool level. Recorded per call: request and reply datagrams, whether the cookie should open (under a key that was handed out as current and whose 72 h are not over - kept by the harness, independent of what the provider still holds), the current key id of the provider right after the reply, the reply opened with miscreant, every reply cookie opened the '
-          'way the server opens cookies, pool and keys of the fetcher afterwards (verif hook), completed TLS handshakes. c11.srv (IP and SCION listener alike): cookies under keys that were rotated out but are valid (answered) and under expired keys (refused), each request sent once before the provider is aged; authenticated requests of any shape (1..3 '
+          'way the server opens cookies, pool and keys of the fetcher afterwards (verif hook), completed TLS handshakes. c11.shist: the same history shapes (loss-free runs of 10..13 calls, 1..9 consecutive losses, drain and re-key, rotation, expiry, failing key exchanges) through the real core/client.SCIONClient with packet authentication (SPAO, DRKey mock keys, USE_MOCK_KEYS=true) AND NTS enabled, against the real SCION listener behind a relay on a second loopback address and a second real NTS-KE server naming it; requests and replies are the NTP/NTS payloads of the SCION/UDP packets, pool read after every call. c11.srv (IP and SCION listener alike): cookies under keys that were rotated out but are valid (answered) and under expired keys (refused), each request sent once before the provider is aged; authenticated requests of any shape (1..3 '
           'cookies, 0..40 placeholders of 0..128 bytes, identifiers of 32..164 bytes) built with the real encoder and sent to the real listener. c11.req / c11.resp: '
           'nts.NewRequestPacket / NewResponsePacket + EncodePacket on crafted pools and cookie lists (pool level 0..14, cookie lengths 0..1100 dense around every length at '
           'which one field more or less fits, identifier lengths 0..940, keys of wrong length), compared byte for byte. c11.store: Fetcher.StoreCookie around MaxCookieLen. '
@@ -44,5 +44,5 @@ CONF = dict(
                  'reply <= 1024, well formed, authenticates under S2C, one new cookie per requested field (fewer only if one more would not fit), each new, each sealed under the provider\'s current key and opening under a valid key to the session keys; every pool cookie was pooled before, came with this call\'s key exchange or inside the authenticated reply, none from a forged datagram; '
                  'a process that dies during a history is a failure'),
     timeout_quick=900, timeout_thorough=3000,
-    min_cases={'c11.const': 1, 'c11.hist': 72, 'c11.req': 471, 'c11.resp': 540, 'c11.srv': 148, 'c11.store': 90},
+    min_cases={'c11.const': 1, 'c11.hist': 72, 'c11.req': 471, 'c11.resp': 540, 'c11.shist': 21, 'c11.srv': 148, 'c11.store': 90},
 )
